@@ -4,7 +4,7 @@
    `next_midnight t` the midnight that follows it.  `open` is the list of open check-ins
    (time_log_t::time_xacts), `clock_out db open o` the effect of one check-out line with
    (db = true) or without --day-break, `run`/`journal` the effect of a whole file. *)
-From LedgerV Require Import Base.Prelude Model.Timelog Proofs.TimelogProofs Gen.ClockAccount.
+From LedgerV Require Import Base.Prelude Model.Timelog Proofs.TimelogProofs Gen.ClockAccount Gen.UnreduceWalk.
 Local Open Scope Z_scope.
 
 (* ---- one session: exactly t_out - t_in seconds, on the check-in day, to the check-in account;
@@ -169,6 +169,39 @@ Theorem clock_lines_resolve_alike :
   src_clock_in_root = RootTopAccount /\ src_clock_out_root = RootTopAccount.
 Proof. exact clock_lines_resolve_alike_lemma. Qed.
 Print Assumptions clock_lines_resolve_alike.
+
+(* ---- reported time: the scaled quantity a report shows (s -> m -> h -> units a journal declares with
+   `C 1.00d = 24h`), times the product of the factors of the units walked, is the number of seconds -
+   exactly, before the display rounds it; the walk stops at the last unit in which the quantity is at
+   least 1 in absolute value; and the source divides by the factor of the step it takes ---- *)
+Theorem reported_time_exact : forall chain lab q,
+  Forall (fun x => ~ (snd x == 0)%Q) chain ->
+  exists k, (k <= length chain)%nat /\
+    (snd (unreduce_walk chain lab q) * prod_factors (firstn k chain) == q)%Q /\
+    fst (unreduce_walk chain lab q) = last (map fst (firstn k chain)) lab /\
+    (forall x, nth_error chain k = Some x ->
+       at_least_one (Qred (snd (unreduce_walk chain lab q) / snd x)) = false).
+Proof. exact unreduce_walk_exact. Qed.
+Print Assumptions reported_time_exact.
+
+Theorem reported_time_at_least_one : forall chain lab q,
+  unreduce_walk chain lab q = (lab, q) \/ at_least_one (snd (unreduce_walk chain lab q)) = true.
+Proof. exact unreduce_walk_moved. Qed.
+Print Assumptions reported_time_at_least_one.
+
+Theorem unreduce_divides_by_next_factor : src_unreduce_divisor = DivCursorLarger.
+Proof. exact unreduce_divides_by_next_factor_lemma. Qed.
+Print Assumptions unreduce_divides_by_next_factor.
+
+(* 216000 s with m = 60 s, h = 60 m, d = 24 h is 2.5 d (not 1 d); with a working day d = 8 h and
+   w = 5 d it is 1.5 w; 59 s stays 59 s *)
+Example reported_time_example :
+  let m := (109 :: nil)%Z in let h := (104 :: nil)%Z in let d := (100 :: nil)%Z in let w := (119 :: nil)%Z in
+  let s := (115 :: nil)%Z in
+  unreduce_walk ((m, 60#1) :: (h, 60#1) :: (d, 24#1) :: nil)%Q s (216000#1)%Q = (d, (5#2)%Q) /\
+  unreduce_walk ((m, 60#1) :: (h, 60#1) :: (d, 8#1) :: (w, 5#1) :: nil)%Q s (216000#1)%Q = (w, (3#2)%Q) /\
+  unreduce_walk ((m, 60#1) :: (h, 60#1) :: (d, 24#1) :: nil)%Q s (59#1)%Q = (s, (59#1)%Q).
+Proof. vm_compute. repeat split. Qed.
 
 (* ---- non-vacuity: 2020-02-28 23:00:00 .. 2020-03-01 01:00:01 (93601 s) splits as
    3600 + 86400 + 3601 over 28 Feb, 29 Feb and 1 Mar; two interleaved sessions are clean ---- *)
